@@ -145,7 +145,8 @@ def xstep (s : St) (w : List String) : St × String :=
     let ps := polyParts s.xarr 0
     let txt := if ps.isEmpty then "-" else ",".intercalate (ps.map fun (a, b, c, d) => s!"{a}+{b}/{c}+{d}")
     -- spec: the points of a part are its drawn points without an out-of-range first / last point
-    (s, s!"R spans={txt} | C - | I - | S spans={txt} ; *")
+    let sane := ps.all fun (a, b, c, d) => 0 ≤ b ∧ a + b.toNat ≤ lengthUser s.xarr ∧ c + d ≤ lengthUser s.xarr
+    (s, s!"R spans={txt} | C - | I - | S " ++ (if sane then s!"spans={txt} ; *" else "!invalid ; *"))
   | _ => (s, "bad-op")
 
 def step (s : St) (w : List String) : St × String :=
